@@ -3,20 +3,23 @@
    for all rule lists in scope and all feature lists; with Emit, every (rule list, feature
    list) pair is printed for the replayer (specification -> implementation). *)
 EXTENDS VRewrite, Json
-CONSTANTS NRules, NCols, Pinned, Emit
+CONSTANTS NRules, NCols, Pinned, Emit, SmallAlpha     \* SmallAlpha: patterns {*, a, b} only (for the wider scopes)
 
-Pats == { [k |-> "any"], [k |-> "lit", v |-> "a"], [k |-> "lit", v |-> "b"], [k |-> "alt", v |-> <<"a", "b">>] }
+Pats == { [k |-> "any"], [k |-> "lit", v |-> "a"], [k |-> "lit", v |-> "b"] }
+        \cup (IF SmallAlpha THEN {} ELSE { [k |-> "alt", v |-> <<"a", "b">>] })
 Feats == {"a", "b", "c"}
 PatSeqs == SeqsUpTo(Pats, NCols) \ {<<>>}
 (* the output identifies the rule and exercises references: $1, $3 (maybe absent), text *)
 OutOf(i) == << [k |-> "text", v |-> "r" \o ToString(i)], [k |-> "ref", i |-> 1], [k |-> "ref", i |-> 3] >>
 VARIABLE pats
-Init == pats \in [1..NRules -> PatSeqs]
-Next == UNCHANGED pats
+(* rules are added one at a time so that TLC's workers share the enumeration; every prefix
+   is itself a rule list and is checked too *)
+Init == pats \in [1..1 -> PatSeqs]
+Next == Len(pats) < NRules /\ \E p \in PatSeqs : pats' = Append(pats, p)
 Spec == Init /\ [][Next]_pats
-Rules == [i \in 1..NRules |-> [pat |-> pats[i], out |-> OutOf(i)]]
+Rules == [i \in 1..Len(pats) |-> [pat |-> pats[i], out |-> OutOf(i)]]
 FeatLists == SeqsUpTo(Feats, NCols + 1)
 Refines == LET trie == TLCEval(TrieOf(Rules, Pinned)) IN
            \A fs \in FeatLists : Dfs(trie, 1, 0, fs) = FirstMatch(Rules, fs)
-EmitInv == Emit => PrintT(<<"GEN", ToJson([rules |-> Rules])>>)
+EmitInv == (Emit /\ Len(pats) = NRules) => PrintT(<<"GEN", ToJson([rules |-> Rules])>>)
 ===========================================================================
